@@ -56,7 +56,11 @@ def peewee_v2_to_sqlite_v1(datastore):
             bucket["hostname"],
             bucket["created"],
             bucket["name"],
+            bucket["data"],
         )
         bucket_events = pw_db.get_events(bucket_id, -1)
+        for event in bucket_events:
+            # ids belong to the old database, events carrying one would be treated as updates
+            event.id = None
         datastore.insert_many(bucket_id, bucket_events)
     logger.info("Migration of peewee v2 to sqlite v1 finished")
